@@ -147,6 +147,9 @@ def claim_num_literal(cx, res, kf):
                                           "radix %d: a valid first digit is rejected" % radix)
                     elif isinstance(payload, Opaque) and payload.attrs.get("kind") == "io":
                         res.must_be_unsat(pc + [z3.Not(io0)], "radix %d: io error without a failing read" % radix)
+                    elif code is not None and code.startswith("Eof"):
+                        # a literal cut off before its first digit: only at the end of input
+                        res.must_be_unsat(pc + [z3.Not(z3.And(z3.Not(io0), eof0))], "radix %d: EOF error although a byte was read" % radix)
                     else:
                         res.violations.append({"what": "unexpected error %r before the loop" % code, "replayed": None})
                 else:
@@ -592,9 +595,11 @@ def claim_decimal(cx, res, kf):
             continue
         if kind == "err":
             code = K.code_name(eng, K.err_code_index(eng, payload))
-            if code == "InvalidNumber":
+            if code == "InvalidNumber" or (code or "").startswith("Eof"):
                 seen["nodigit"] += 1
-                res.must_be_unsat(pc + [z3.Not(z3.And(z3.Not(aod), z3.Not(isd)))], "InvalidNumber although a fraction digit was read")
+                res.must_be_unsat(pc + [z3.Not(z3.And(z3.Not(aod), z3.Not(isd)))], "error although a fraction digit was read")
+                if code != "InvalidNumber":
+                    res.must_be_unsat(pc + [z3.Not(eof)], "EOF error for a missing fraction digit although input continues")
                 continue
             if io_err_payload(payload):
                 res.must_be_unsat(pc + [z3.Not(ioerr)], "io error without failing read")
@@ -632,7 +637,7 @@ def claim_exponent(cx, res, kf):
         if rec is None:
             if kind == "err":
                 code = K.code_name(eng, K.err_code_index(eng, payload))
-                if code == "InvalidNumber":
+                if code == "InvalidNumber" or (code or "").startswith("Eof"):
                     seen["nodigit"] += 1
                     continue
                 if io_err_payload(payload):
@@ -1109,7 +1114,8 @@ def claim_translator_validation(cx, res, kf):
                 enc = ("int", iv)
         # native side
         if "err" in nat:
-            ncode = {"invalid number": "InvalidNumber", "number out of range": "NumberOutOfRange"}.get(nat["err"]["code"], nat["err"]["code"])
+            ncode = {"invalid number": "InvalidNumber", "number out of range": "NumberOutOfRange",
+                     "EOF while parsing a value": "EofWhileParsingValue"}.get(nat["err"]["code"], nat["err"]["code"])
             # a trailing-characters error from the top level means the number scanner itself accepted a prefix
             natv = ("err", ncode)
         elif nat.get("t") == "int":
